@@ -1,7 +1,7 @@
 (* Model/EntryHandlers.v — S-expression glue for Model/MetaHandlers.v *)
 From Coq Require Import String List Ascii NArith ZArith Bool.
 From LS Require Import Model.Bytes Model.Tags Gen.Consts Model.Sx Model.Codec Model.Readers Model.Writers
-                       Model.AriSpec Model.MetaHandlers Model.Envelope Model.EntryWire Model.EntryReply.
+                       Model.AriSpec Model.AriReply Model.MetaHandlers Model.Envelope Model.Classify Model.EntryWire Model.EntryReply.
 Import ListNotations.
 
 Definition sx_arg (a : arg) : sx :=
@@ -78,9 +78,28 @@ Definition e_envelope_notify (args : list sx) : sx :=
   | _ => sx_err "envelope_notify: bad args"
   end.
 
+(* (classify KIND <line>) -> garbage | (close id0 rok) | (init <id> wf refused oldv) | (req <id> wf known) | unmodelled *)
+Definition e_classify (args : list sx) : sx :=
+  match args with
+  | [k; SA line] =>
+      match un_kind k with
+      | Some k' =>
+          match classify k' line with
+          | CGarbage => sym "garbage"
+          | CClose a b => app_ "close" [sx_bool a; sx_bool b]
+          | CInit id a b c => app_ "init" [SA id; sx_bool a; sx_bool b; sx_bool c]
+          | CReq id a b => app_ "req" [SA id; sx_bool a; sx_bool b]
+          | CUnmodelled => sym "unmodelled"
+          end
+      | None => sx_err "classify: bad kind"
+      end
+  | _ => sx_err "classify: bad args"
+  end.
+
 Definition entry_handlers (h : bytes) (args : list sx) : option sx :=
   if head_is "meta_handle" h then Some (e_meta_handle args)
   else if head_is "meta_spec_calls" h then Some (e_meta_spec_calls args)
   else if head_is "envelope_reply" h then Some (e_envelope_reply args)
   else if head_is "envelope_notify" h then Some (e_envelope_notify args)
+  else if head_is "classify" h then Some (e_classify args)
   else None.
